@@ -1,22 +1,23 @@
 \* generated by mkcfg_searchers.py; families and layouts: MCSearchers.tla
 SPECIFICATION Spec
 CONSTANTS
-  SegSizes <- Segs22
-  Deleted = {1}
+  SegSizes <- Segs0
+  Deleted = {}
   OneHitEnc = TRUE
   ScoreNone = FALSE
   HeapTakeover = 10
-  MaxCalls = 3
-  NTerms = 2
-  Family = "core2"
+  MaxCalls = 2
+  NTerms = 1
+  Family = "leaf"
   DropK1 = FALSE
   Queries <- MCQueries
   FixEmptySnapshot = TRUE
   FixBoolAdvance = TRUE
   FixShouldMin = FALSE
   FirstAdvanceOK <- FirstAdvAlways
-VIEW View
 INVARIANT ResultOK
 INVARIANT NoPanic
-INVARIANT EnumIsHits
+INVARIANT Ascending
+INVARIANT NothingSkipped
+INVARIANT OnlyMatches
 CHECK_DEADLOCK FALSE
